@@ -8,6 +8,7 @@ PINNED = {
     "xyzpy/gen/prepare.py": ["_str_2_tuple", "dictify", "parse_fn_args", "check_for_duplicates", "parse_combos",
                              "parse_combo_results", "parse_cases", "parse_case_results", "parse_var_names",
                              "parse_var_dims"],
+    "xyzpy/gen/combo_runner.py": ["multi_concat", "get_ndim_first", "nan_like_result", "infer_shape"],
     "xyzpy/gen/cropping.py": ["Crop._sync_info_from_disk", "Crop.all_nan_result", "Crop.delete_all",
                               "Crop.num_sown_batches", "Crop.num_results", "Crop.__init__"],
 }
